@@ -81,11 +81,16 @@ func isNotSymbolCharacter(c byte) bool {
 func expect(r *bufio.Reader, c byte) bool {
 	ReadWhitespace(r)
 	res, err := r.ReadByte()
+	if err != nil {
+		// nothing was read: there is nothing to put back (UnreadByte would push the
+		// previously read byte back and make the caller see it again and again)
+		return false
+	}
 	if res != c {
 		_ = r.UnreadByte()
 	}
 
-	return res == c && err != io.EOF
+	return res == c
 }
 
 func untilFixed(b byte) func(byte) bool {
